@@ -36,6 +36,7 @@ API Reference
 """
 
 import numpy as np
+import math
 from math import log
 from scipy.stats import *
 
@@ -380,7 +381,7 @@ def newsvendor_with_disruptions(holding_cost, stockout_cost, demand, disruption_
 
 	# Choose sufficiently large n that F(n) is close to 1 (and larger than gamma).
 	max_gamma = max(1-1.0e-10, gamma)
-	max_n = int(np.ceil(log((1 - max_gamma) *
+	max_n = int(np.ceil(math.log((1 - max_gamma) *
 							(disruption_prob + recovery_prob) / disruption_prob, 1 - recovery_prob)))
 
 	# Calculate probability distribution.
